@@ -444,6 +444,131 @@ func TestCheckMerge(t *testing.T) {
 	})
 }
 
+// ---- merging values that have a history -----------------------------------------------------
+
+type histCase struct {
+	Left  *gen.NodeBP  `json:"left"`
+	Right *gen.NodeBP  `json:"right"`
+	Warm  int          `json:"warm"`
+	Edits []gen.EditOp `json:"edits"`
+}
+
+// warmUp does what earlier calls on the same values would have done: merges, and
+// comparisons of every node with every node of the other side.
+func warmUp(l, r gedcom.Node, rounds int) {
+	for i := 0; i < rounds; i++ {
+		_, _ = gedcom.MergeNodes(l, r, gedcom.NewDocument())
+		_ = gedcom.MergeNodeSlices(l.Nodes(), r.Nodes(), gedcom.NewDocument(), gedcom.EqualityMergeFunction)
+		for _, a := range tu.All(l) {
+			for _, b := range tu.All(r) {
+				_ = a.Equals(b)
+			}
+		}
+	}
+}
+
+// checkHistory: the result of a merge is a function of the content of its inputs, not of
+// what was done with them before. Live trees that were merged, compared and then edited
+// through the public API must merge exactly as trees built from nothing with the same content.
+func checkHistory(c histCase) (fl *harness.Failure, edited int) {
+	defer func() {
+		if p := recover(); p != nil {
+			fl = harness.Failf("panic", "panic: %v", p)
+		}
+	}()
+	_, ls := buildAll([]*gen.NodeBP{c.Left})
+	_, rs := buildAll([]*gen.NodeBP{c.Right})
+	l, r := ls[0], rs[0]
+	warmUp(l, r, c.Warm)
+	for _, e := range c.Edits {
+		if e.Apply(l, r) {
+			edited++
+			warmUp(l, r, 1)
+		}
+	}
+	// everything is read from the live trees BEFORE anything is built from nothing: creating
+	// nodes resets process-wide caches and would repair what the history left behind
+	lbp, rbp := gen.FromNode(l), gen.FromNode(r)
+	lt, rtx := tu.Text(l), tu.Text(r)
+	show := func() string { return fmt.Sprintf("left:\n%sright:\n%s", lt, rtx) }
+	a, errA := gedcom.MergeNodes(l, r, gedcom.NewDocument())
+	sa := texts(gedcom.MergeNodeSlices(l.Nodes(), r.Nodes(), gedcom.NewDocument(), gedcom.EqualityMergeFunction))
+	var selfText [2]string
+	var selfErr [2]error
+	for k, t := range []gedcom.Node{l, r} {
+		x, err := gedcom.MergeNodes(t, t, gedcom.NewDocument())
+		selfErr[k] = err
+		if err == nil {
+			selfText[k] = tu.Text(x)
+		}
+	}
+	ta := ""
+	if errA == nil {
+		ta = tu.Text(a)
+	}
+	_, fl2 := buildAll([]*gen.NodeBP{lbp})
+	_, fr2 := buildAll([]*gen.NodeBP{rbp})
+	l2, r2 := fl2[0], fr2[0]
+	if lt != tu.Text(l2) || rtx != tu.Text(r2) {
+		return nil, 0 // the builder normalises something: not a comparable case
+	}
+	b, errB := gedcom.MergeNodes(l2, r2, gedcom.NewDocument())
+	if (errA == nil) != (errB == nil) {
+		return harness.Failf("history-changes-merge:error", "MergeNodes fails (%v) on trees with a history and not (%v) on the same trees built from nothing\n%s", errA, errB, show()), edited
+	}
+	if errA == nil && ta != tu.Text(b) {
+		return harness.Failf("history-changes-merge:nodes", "MergeNodes of trees that were merged, compared and edited before gives\n%sand of the same trees built from nothing\n%s%s", ta, tu.Text(b), show()), edited
+	}
+	if sb := texts(gedcom.MergeNodeSlices(l2.Nodes(), r2.Nodes(), gedcom.NewDocument(), gedcom.EqualityMergeFunction)); sa != sb {
+		return harness.Failf("history-changes-merge:slices", "MergeNodeSlices of lists with a history gives\n%sand of the same lists built from nothing\n%s%s", sa, sb, show()), edited
+	}
+	for k, t := range []gedcom.Node{l2, r2} {
+		y, errY := gedcom.MergeNodes(t, t, gedcom.NewDocument())
+		if (selfErr[k] == nil) != (errY == nil) || (errY == nil && selfText[k] != tu.Text(y)) {
+			return harness.Failf("history-changes-merge:self", "merging tree %d with itself gives\n%safter a history and\n%swhen built from nothing\n%s", k, selfText[k], tu.Text(y), show()), edited
+		}
+	}
+	return nil, edited
+}
+
+func TestCheckMergeHistory(t *testing.T) {
+	s := harness.NewSub("merge-after-history",
+		"pairs of trees with the same root tag (as in merge-nodes-and-slices) that are first merged and compared node by node (1..2 rounds), then edited through the public API (1..4 edits: AddNode, DeleteNode, SetNodes(nil), a DATE or PLAC child replaced, the children re-added as new nodes; biased to the children that RESI/EVEN/BIRT derive their equality from), comparing again after every edit; oracle: MergeNodes, MergeNodeSlices and the self-merge of the live trees give exactly the text that the same trees built from nothing give; non-trivial = at least one edit changed a tree with >= 3 nodes")
+	s.Rapid(t, harness.Share(harness.Pick(30000, 3000000)), 91, func(rt *rapid.T) {
+		l := gen.EqTree(gen.EqTreeOpts{MaxNodes: 14, Roles: false}).Draw(rt, "left")
+		var r *gen.NodeBP
+		if rapid.Bool().Draw(rt, "overlap") {
+			r = l.Clone()
+			if len(r.Kids) > 1 {
+				r.Kids = rapid.Permutation(r.Kids).Draw(rt, "perm")
+			}
+		} else {
+			r = gen.EqTree(gen.EqTreeOpts{MaxNodes: 14, Roots: []string{l.Tag}, Roles: false}).Draw(rt, "right")
+		}
+		c := histCase{Left: l, Right: r, Warm: rapid.IntRange(1, 2).Draw(rt, "warm"), Edits: gen.EditOps(4).Draw(rt, "edits")}
+		fl, edited := checkHistory(c)
+		nt := edited > 0 && l.Count()+r.Count() >= 6
+		s.Eval(harness.JSON(c), nt, fmt.Sprintf("effective-edits:%d", edited))
+		if nt {
+			s.MaybeSample(c)
+		}
+		if fl != nil && s.Report(c, fl) {
+			rt.Fatalf("%s: %s", fl.Sig, fl.Msg)
+		}
+	})
+}
+
+func init() {
+	harness.RegisterReplay("merge-after-history", func(raw json.RawMessage) *harness.Failure {
+		var c histCase
+		if err := json.Unmarshal(raw, &c); err != nil {
+			return harness.Failf("bad-replay", "%v", err)
+		}
+		fl, _ := checkHistory(c)
+		return fl
+	})
+}
+
 func init() {
 	harness.Assume("the two root nodes given to MergeNodes are identified by the caller; coverage is required for everything below them ('equal' = Equals either way or same tag/value/pointer)",
 		"self-merge premise: no two siblings are Equals or carry the same line, and every node Equals itself (computed on the case)",
